@@ -26,6 +26,7 @@ from lib import core
 from lib.core import f2bits, bits2f
 
 DRIVER = "drv_phs"
+LEAN_TARGETS = ["OmplModel.Props.C15", DRIVER]
 EPS = 2.220446049250313e-16
 TOL = 1e-12
 
@@ -428,6 +429,8 @@ def rand_point(rng, P, near=None):
 def smp_lockstep(ck, hbin, rng, tag, cmpst, nonmonotone=False):
     """one direct-sampler script + one rejection-sampler script on the same problem.  returns #bad"""
     P = gen_problem(rng)
+    while nonmonotone and len(set(dist(s, g) for s, g in pairs_of(P))) < 2:
+        P = gen_problem(rng)      # the erasure scenario needs at least two different focal distances
     n, lo, hi = P["n"], P["lo"], P["hi"]
     pairs = pairs_of(P)
     cmins = [dist(s, g) for s, g in pairs]
@@ -497,6 +500,11 @@ def smp_lockstep(ck, hbin, rng, tag, cmpst, nonmonotone=False):
             x = rand_point(rng, P, (pairs[idx][0], pairs[idx][1], c))
             ops.append(("hc %s" % vb(x), dict(m, kind="hc", x=x)))
             ops.append(("nin %s" % vb(x), dict(m, kind="nin", x=x)))
+        if nonmonotone:
+            # the midpoint of every start/goal pair has heuristic cost = that pair's focal distance
+            for s_, g_ in pairs:
+                x = [(a + b) / 2 for a, b in zip(s_, g_)]
+                ops.append(("nin %s" % vb(x), dict(m, kind="nin", x=x)))
     script = head + srots + [l for l, _ in ops]
     metas = [{"kind": "setup"}] * (len(head) - 1 + len(srots)) + [m for _, m in ops]
     bad = judge_smp(ck, hbin, script, metas, P, cmpst, tag + ("-nonmono" if nonmonotone else "-direct"), nonmonotone)
@@ -709,11 +717,11 @@ def bulk_configs(rng, tier):
             add(P, "ord-direct", (lambda cm, fac=fac: max(cm) * fac), n=N // 8, name="sweep-ord-%s" % kind)
     # infinite cost: falls back to the base sampler
     add(P1, "direct", math.inf, n=N // 10, name="infinite-cost")
-    # tiny focal separations at large coordinates (rounding stress; F15a lives here)
+    # tiny focal separations at large coordinates (rounding stress; regression for F34, fixed by 74ee9605c)
     for (s, g) in [([5.0, 5.0], [5.0 + 2e-9, 5.0]), ([1000.0, 1000.0], [1000.0 + 1e-6, 1000.0 + 2e-6]), ([1.0, 1.0], [1.0 + 1e-8, 1.0 + 2e-8])]:
         Pt = {"kind": "rv", "n": 2, "lo": 0.0, "hi": 2000.0, "starts": [s], "goals": [g]}
         add(Pt, "direct", lambda cm: cm[0] * (1 + 1e-9), n=N // 2, name="tiny-separation")
-    # F15b: the ordered wrapper with a wrapped sampler that can fail (PHS mostly outside the bounds, few iterations)
+    # regression for F35 (fixed by 4bc34ddf9): the ordered wrapper with a wrapped sampler that can fail (PHS mostly outside the bounds, few iterations)
     Pc = {"kind": "rv", "n": 2, "lo": 0.0, "hi": 10.0, "starts": [[0.1, 0.1]], "goals": [[0.6, 0.1]]}
     add(Pc, "ord-direct", 6.0, iters=1, n=N // 10, name="ordered-wrapped-failure")
     add(Pc, "direct", 6.0, iters=1, n=N // 10, name="corner-direct")
@@ -784,6 +792,7 @@ def bulk_judge(cfg, out, rc, err):
             cls = "heuristic-mismatch"
         if what:
             if cls in ("direct-rounding-thin-phs", "ordered-ignores-wrapped-failure"):
+                # the defects F34 / F35 (fixed in /repo): kept as separate classes so that a regression is named
                 res["known"].setdefault(cls, (what, idx))
             elif res["fail"] is None:
                 res["fail"] = (cls, what, idx)
@@ -928,9 +937,11 @@ def run_bulk(ck, hbin, rng):
             for cls, (what, idx) in res["known"].items():
                 s2 = list(script)
                 s2[-1] = " ".join(s2[-1].split()[:-1] + [str(idx + 1)])
-                if ck.report({"engine": "phs", "class": cls, "sampler": cfg["sampler"], "what": what}, script=s2, observed=[what]):
+                if ck.report({"engine": "phs", "class": cls, "sampler": cfg["sampler"], "what": what}, script=s2, observed=[what],
+                             expected=["success => satisfiesBounds and heuristic cost < maxCost"]):
+                    ck.log("bulk oracle failure in %s (%s): %s" % (cfg["name"], cls, what))
                     bad += 1
-                rec["known:" + cls] = idx
+                rec["regression:" + cls] = idx
             if res["fail"]:
                 cls, what, idx = res["fail"]
                 s2 = list(script)
@@ -1042,6 +1053,31 @@ def corpus():
     return out
 
 
+def sample_lines_fail(script, out):
+    """success oracle on the `s …` lines of a bulk run: (index, what) of the first successful sample that is out of
+    bounds or whose library heuristic is not strictly below the bound of the script's bulk op; None if all pass"""
+    t = script[-1].split()
+    cs = t[1] if t[0] == "bulk" else t[2]
+    c = math.inf if cs == "inf" else bits2f(cs)
+    minc = bits2f(t[1]) if t[0] == "bulk3" else None
+    idx = -1
+    for ln in out:
+        if not ln.startswith("s "):
+            continue
+        idx += 1
+        if ln == "s ok=0":
+            continue
+        _, d = fields(ln)
+        hc = bits2f(d["hc"])
+        if d["inb"] != "1":
+            return idx, "successful sample is outside the space bounds (satisfiesBounds=0): %r" % (fvec(d["x"]),)
+        if c < math.inf and not hc < c:
+            return idx, "successful sample has heuristic cost %r >= maxCost %r" % (hc, c)
+        if minc is not None and hc < minc:
+            return idx, "successful sample has heuristic cost %r < minCost %r" % (hc, minc)
+    return None
+
+
 def run_corpus(ck, hbin, cmpst):
     """corpus scripts are pair scripts (no harness-only ops) whose implementation output must equal the
     model's (tolerantly); a line `#expect <text>` is not used: the oracle is the lock-step itself."""
@@ -1055,6 +1091,16 @@ def run_corpus(ck, hbin, cmpst):
             if rc != 0 or not out:
                 ck.report({"engine": "phs", "class": "harness-failure", "what": "corpus %s: harness failed" % name}, script=script,
                           observed=(out or [])[-3:] + [str(rc), (err or "")[-800:]])
+                bad += 1
+                continue
+            f = sample_lines_fail(script, out)
+            if f is not None:
+                idx, what = f
+                s2 = list(script)
+                s2[-1] = " ".join(s2[-1].split()[:-1] + [str(idx + 1)])
+                ck.report({"engine": "phs", "class": "corpus-regression", "corpus": name, "what": what}, script=s2, observed=[what],
+                          expected=["success => satisfiesBounds and heuristic cost < maxCost"])
+                ck.log("corpus %s: %s" % (name, what))
                 bad += 1
             continue
         impl, rc, err, model = ck.run_pair(hbin, DRIVER, script)
@@ -1097,8 +1143,8 @@ def run(ck):
                        "(an infinite bound falls back to the base sampler, checked as such; a bound at or below the focal distance samples the focal segment and is outside the property)",
                        "uniformity is proved for the construction (linear image of the uniform ball, 1/k overlap rejection), not for the RNG; the chi-square figures are tests",
                        "the base samplers stay inside the bounds (property C08)"]
-    ck.lean_build(["OmplModel.Props.C15", DRIVER])
-    ck.audit()
+    ck.lean_build(LEAN_TARGETS)
+    ck.audit(roots=["Drv.Phs"])
     if ck.tier == "thorough" and ck.lean_ok:
         ck.leanchecker(["OmplModel.Props.C15"])
     hbin = ck.build_harness("phs", ["phs.cpp"], link_ompl=True)
@@ -1112,7 +1158,7 @@ def run(ck):
         if bad >= 3:
             break
         bad += smp_lockstep(ck, hbin, ck.rng.fork("smp%d" % i), "smp", cmpst)
-    # F15c: a PHS erased by a low bound is never restored for a later higher bound
+    # F36: a PHS erased by a low bound is never restored for a later higher bound
     for i in range(2 if quick else 6):
         if bad >= 3:
             break
@@ -1157,15 +1203,13 @@ def replay(ck, data):
         for l in impl:
             if l.startswith("keep "):
                 print(l)
-        if samples and samples[-1] != "s ok=0":
-            _, d = fields(samples[-1])
-            c = script[-1].split()[-2]
-            cval = math.inf if c == "inf" else bits2f(c)
-            hc = bits2f(d["hc"])
-            print("last sample: inb=%s heuristic cost %r maxCost %r" % (d["inb"], hc, cval))
-            if d["inb"] != "1" or not hc < cval:
-                print("PROPERTY FAILS: %s" % rec.get("what", "success with a state outside the bounds or not below the cost bound"))
+        if script[-1].split()[0] in ("bulk", "bulk3"):
+            f = sample_lines_fail(script, impl)
+            if f is not None:
+                print("PROPERTY FAILS at sample %d: %s" % f)
                 return 1
+            print("every successful sample is in bounds with heuristic cost below the bound: no failure on the current tree")
+            return 0 if rc == 0 else 1
     print("recorded failure: %s" % rec.get("what"))
     if rc != 0:
         print("harness exit code %s: %s" % (rc, (err or "")[-800:]))
